@@ -871,6 +871,14 @@ def setitem(eng, c, k, v):
 
 
 def delitem(eng, c, k):
+    if isinstance(k, slice):
+        if k == slice(None, None, None) and isinstance(c, Box) and (isinstance(c.ty, TSeq) or (c.ty is None and c.kind == 'list')):
+            if c.ty is not None:
+                c.e = c.ty.mk(z3.IntVal(0), c.ty.arr(c.e))      # del xs[:] empties the list in place
+            else:
+                c.cd = None
+            return
+        raise EngineError('del of a slice')
     if isinstance(c, Box) and isinstance(c.ty, TSeq):
         list_pop(eng, c, k)
         return
